@@ -288,6 +288,15 @@ CLAIMS["C17"]["text"] += (
     "lifted to sequences of notifications; the loop before fix 20b97d8 (D27: an observer detaching itself made the next one "
     "miss the entry) and the snapshot-only loop are refuted with witnesses. Tied to the code by a digest obligation on "
     "attach / detach / notify and by the obs slice (real Scheduler, scripted re-entrant observers).")
+CLAIMS["C20"]["text"] += (
+    " Registration performed re-entrantly from inside a callback is covered by a separate model of the callback lists and "
+    "the live-list dispatch loop (RegDispatch.v, Properties/C20reg.v): for all lists, reactions, nestings and interleavings "
+    "what is invoked for a notification is the list at its start followed by the functions accepted during it, each exactly "
+    "once and in order; a present function is refused (False) also when it was accepted earlier in the same dispatch; the "
+    "lists stay duplicate-free; an accepted function is invoked exactly once for every later notification of its kind; the "
+    "variant that defers registrations to the end of the dispatch is refuted. Tied to the code by a digest obligation on "
+    "register_callback_* and by the reg slice (real Scheduler, callbacks that register re-entrantly, recorders held only "
+    "by the scheduler, argument identity).")
 for _p in ("C17", "C20"):
     CLAIMS[_p]["text"] += (
         " ADDITIONALLY PROVED ON THE FAITHFUL NET MODEL (NetShape.v, Properties/C20net.v), i.e. on the transliteration of "
